@@ -392,6 +392,20 @@ func c16Gen(seed int64, idx int) *c16Case {
 	}
 	leaf := yang.S("leaf", "l", typ)
 	cont := yang.S("container", "c16c", leaf)
+	if c.kind == "string" && typ.Arg == "string" && r.Chance(1, 2) {
+		// the same restrictions written on a type that is reached through one to four typedefs, with two more
+		// references to the same typedef next to the leaf (each with a pattern of its own that rejects nothing)
+		depth := r.Range(1, 4)
+		prev := "string"
+		for i := 1; i <= depth; i++ {
+			name := fmt.Sprintf("w%d", i)
+			m.Add(yang.S("typedef", name, yang.S("type", prev)))
+			prev = name
+		}
+		typ.Arg = prev
+		cont.Kids = append([]*yang.Stmt{yang.S("leaf", "sib-before", yang.S("type", prev, yang.S("pattern", ".*")))}, cont.Kids...)
+		cont.Add(yang.S("leaf", "sib-after", yang.S("type", prev, yang.S("pattern", "(.*)|(never)"), yang.S("pattern", ".*"))))
+	}
 	if c.leafMod == "t16" {
 		m.Add(cont)
 		yang.SortSections(m)
